@@ -209,7 +209,7 @@ def main():
                 blob = bytes([0x1a, 2]) + b"N.MOD".ljust(13, b"\0") + struct.pack("<IHHHI", len(tp), 0x5021, 0x6000, crc16_arc(tp), len(tp)) + tp + b"\x1a\x00"
                 pth = os.path.join(tmpd, tag); open(pth, "wb").write(blob)
                 archives.append((tag, pth, hashlib.md5(tp).hexdigest(), len(blob)))
-        for f in ("arc-method2", "arc-method8-rle" if tier == "thorough" else None, "arcfsdata", "lzxstore", "lzxdata", "arc-subdir-spark"):
+        for f in ("arc-method2", "arc-method8-rle" if tier == "thorough" else None, "arcfsdata", "lzxstore", "lzxdata", "lzxmerge", "arc-subdir-spark"):
             if f and os.path.exists(os.path.join(data, f)):
                 if f.startswith("arcfs"):
                     blob = open(os.path.join(data, f), "rb").read()
@@ -229,8 +229,18 @@ def main():
             cmds.append("O"); meta.append((tag, "O", 0, 0))
             if replay:
                 rp = json.load(open(replay))
-                cmds.append(rp["op"] if rp["op"].startswith("M ") else "%s %d %d" % (rp["op"], rp["off"], rp["arg"])); meta.append((tag, rp["op"], rp["off"], rp["arg"]))
+                if tag == "lzxmerge": cmds.append("LI"); meta.append((tag, "LI", 0, 0))
+                cmds.append(rp["op"] if rp["op"].startswith(("M ", "L ")) else "%s %d %d" % (rp["op"], rp["off"], rp["arg"])); meta.append((tag, rp["op"], rp["off"], rp["arg"]))
                 continue
+            if tag == "lzxmerge":
+                # a merge record (two files in one compressed stream): every single-bit damage of the stream that still unpacks, with the
+                # data-CRC field of one entry rewritten to match the damaged file but that entry's header CRC left as it was - the entry's
+                # header no longer verifies, so it must not be used (falling back to the other, intact file is the library's choice)
+                cmds.append("LI"); meta.append((tag, "LI", 0, 0))
+                for pos in range(400):
+                    for bit in range(8):
+                        for which in ((1, 2) if (tier != "quick" or (pos + bit) % 3 == 0) else (1,)):
+                            cmds.append("L %d %d %d" % (pos, 1 << bit, which)); meta.append((tag, "L %d %d %d" % (pos, 1 << bit, which), pos, which))
             full = size <= (900 if tier == "quick" else 40000) and not tag.startswith("n-")
             for off in range(size):
                 if full or off < 48 or off >= size - 24:
@@ -276,7 +286,7 @@ def main():
         r = V.run([drv, "load", os.path.join(tmpd, "variant")], inp="\n".join(cmds) + "\n", env=env, timeout=3000)
         out = r.stdout.split("\n")
         k = 0
-        expect = {}
+        expect = {}; members = {}
         stats = {}
         for mt in meta:
             if mt is None:
@@ -285,6 +295,12 @@ def main():
             k += 1
             tag, op, off, arg = mt
             w = line.split()
+            if op == "LI":
+                if len(w) == 3: members[tag] = set(w[:2])
+                continue
+            if op.startswith("L ") and (line.startswith("SKIP") or line.startswith("?")):
+                stats.setdefault(tag, {"variants": 0, "rejected": 0, "accepted_same_payload": 0}).setdefault("lzx_damage_not_applicable", 0); stats[tag]["lzx_damage_not_applicable"] += 1
+                continue
             if len(w) != 2:
                 if r.returncode != 0:
                     ck.violation({"engine": "corruption", "archive": tag, "op": op, "off": off, "arg": arg,
@@ -307,6 +323,10 @@ def main():
                 ck.nontrivial((tag, op, off, arg))
             elif md == expect.get(tag):
                 st["accepted_same_payload"] += 1
+            elif md in members.get(tag, ()):
+                # an archive with several packed files: the damaged one was refused and another, intact packed file was loaded instead -
+                # its payload is what was packed
+                st["accepted_other_intact_member"] = st.get("accepted_other_intact_member", 0) + 1
             else:
                 ck.violation({"engine": "corruption", "archive": tag, "op": op, "off": off, "arg": arg, "ret": ret, "md5": md, "expected_md5": expect.get(tag),
                               "broken": "monitor: a corrupted archive was accepted with a different payload",
